@@ -341,7 +341,10 @@ begin
 
   gen_rows : for r in mat'range(1) generate
     gen_cols : for c in mat'range(2) generate
-      mat(r, c) <= clk and rst;
+      signal tmp : bit;
+    begin
+      tmp <= clk and rst;
+      mat(r, c) <= tmp;
     end generate gen_cols;
   end generate gen_rows;
 
@@ -539,3 +542,9 @@ end architecture;
 """
 D_NEST = dict(name='operators of an outer enumeration inside a process with local types; record aggregates with others over differently named subtypes', valid=True,
               files=[('lib0', 'nested.vhd', NESTED)])
+
+MULTI_PKG = "package pkg is\n  constant c0 : natural := 0;\nend package;\n"
+MULTI_A = "use work.pkg.all;\npackage a is\n  constant x : natural := c0;\nend package;\n"
+MULTI_B = "use work.pkg.all;\npackage b is\n  constant y : natural := c0 + 1;\nend package;\n"
+D_MULTI = dict(name='one package used from two files at the same coordinates', valid=True,
+               files=[('lib0', 'pkg.vhd', MULTI_PKG), ('lib0', 'a.vhd', MULTI_A), ('lib0', 'b.vhd', MULTI_B)])
